@@ -63,8 +63,10 @@ COMBOS = [
     ('RhombicPlanarCode', 3, ['BeliefPropagationOSDDecoder']),
     ('Color666PlanarCode', 2, ['BeliefPropagationOSDDecoder']),
 ]
-SIZES = {2: ['2x2', '3x3', '2x3', '4x3', '3', '4x4', '3x5'],
-         3: ['2x2x2', '2x3x2', '3x2x2', '2', '2x2x3', '3x3x3']}
+SIZES = {2: ['2x2', '3x3', '2x3', '4x3', '3', '4x4', '3x5', '10x10', '12x14',
+             '11', '3x10'],
+         3: ['2x2x2', '2x3x2', '3x2x2', '2', '2x2x3', '3x3x3', '10x2x2',
+             '2x2x11']}
 
 
 def parse_size(s, dim, cls):
@@ -89,6 +91,9 @@ def gen_case(rng):
     pool = SIZES[dim]
     if cls == 'Color666PlanarCode':
         pool = ['1x1', '2x2', '3x3', '2']
+    if cls in ('Color488Code', 'Color666ToricCode', 'Color3DCode',
+               'RhombicToricCode', 'HollowRhombicCode'):
+        pool = [x for x in pool if max(int(t) for t in x.split('x')) < 10]
     ns = int(rng.integers(1, 5))
     sizes = [pool[int(i)] for i in rng.choice(len(pool), size=min(ns,
                                                                   len(pool)),
